@@ -140,9 +140,10 @@ class TransactionManager:
 
     def error_transaction(self, exc):
         self._transition_to(TransactionState.ABORTABLE_ERROR)
-        self._txn_partitions.clear()
-        self._txn_consumer_group = None
-        self._pending_txn_partitions.clear()
+        # NOTE: The partitions and the group that were already added stay
+        # registered, as the coordinator has them in the transaction and the
+        # following abort has to send EndTxn for them. Partitions that still
+        # wait to be added stay muted until the abort drops their batches.
         for _, _, fut in self._pending_txn_offsets:
             fut.set_exception(exc)
         self._pending_txn_offsets.clear()
@@ -196,6 +197,13 @@ class TransactionManager:
         for group_id, offsets, _ in self._pending_txn_offsets:
             return offsets, group_id
         return None
+
+    def abort_pending_partitions(self):
+        """Forget the partitions that were never added to the transaction.
+        Returns them, so their batches can be dropped."""
+        tps = set(self._pending_txn_partitions)
+        self._pending_txn_partitions.clear()
+        return tps
 
     def partition_added(self, tp: TopicPartition):
         self._pending_txn_partitions.remove(tp)
